@@ -11,19 +11,20 @@
 
    WHAT IS THEOREM AND WHAT IS SAMPLED, clause by clause of the property text:
 
-   (a) "no connection is accepted after the signal".  THEOREM from the moment the accept loop
-       OBSERVES the signal (label SignalObserved: select! polled the Fuse'd signal and took the
-       branch): c13_no_accept_after_signal, c13_no_accept_enabled_after_signal.  Between the
-       FIRING of the signal (SignalFires, the user's future becomes ready) and its observation the
-       model - like the code - allows further Accepts: tonic's select! is not `biased`, tokio picks
-       the branch order at random, so when the signal and the listener are ready in the same poll
-       either may win, repeatedly (Example c13_accepts_between_firing_and_observation).  What is
-       proved about that window: the signal branch stays enabled until it is taken
-       (c13_signal_enabled_until_observed) - that it IS taken is tokio's fairness, which is not in
-       the model.  SAMPLED by the harness (scenario kinds *.signal_vs_accept): how many connections
-       that were ready together with the signal got accepted (0..n, roughly halving per round);
-       each of them is served in full; at the first quiescent point after the firing the loop has
-       always left the select (event EIdleAfterFire, checked in every run).
+   (a) "no connection is accepted after the signal".  THEOREM, counted from the FIRING of the
+       signal (label SignalFires: the user's future becomes ready), for all runs:
+       c13_no_accept_after_signal_fired, c13_listener_not_polled_once_fired.  This is so since the
+       fix of finding F-C13a (`biased;` in serve_internal's select!, signal branch first): the loop
+       polls the signal first in every iteration and polls the listener only when the signal is
+       still pending.  Before the fix the branch order was random, a ready listener won against a
+       ready signal half of the time, again and again, and the model had to allow Accept between
+       SignalFires and SignalObserved.  That the select loop IS LEFT is a theorem too:
+       c13_first_select_move_after_firing (in the window the loop has one move, SignalObserved)
+       and c13_select_loop_left (over whole runs).  What remains assumed is that the runtime polls
+       the woken accept task at all.  SAMPLED in addition: the harness counts connections accepted
+       after the firing in every run (must be 0; corpus.F-C13a are the witnesses of the finding),
+       and a listener that stays permanently ready while the signal fires (kinds *.flood) shows
+       that no supply of ready connections delays the observation.
    (b) "every accepted call runs to completion".  In the model this is: tonic's connection task
        has NO step that drops a live connection (the select loop of serve_connection is left only
        when the hyper connection future resolves) PLUS law 2 of hyper_contract (hyper does not
@@ -40,8 +41,10 @@
        deadlock, not as "eventually" under a scheduler.
 
    PARTIAL (not in the model): h2's frame handling beyond the two GOAWAY frames, tokio task
-   scheduling and the fairness of select!, handler termination (CallCompletes is a progress
+   scheduling (that a woken task is polled), handler termination (CallCompletes is a progress
    step), message contents.
+   [http1] is Server::accept_http1: it changes what graceful_shutdown does to a connection whose
+   peer has not spoken yet (see Model/Shutdown.v); every theorem holds for both values.
    Observed on the real crates and therefore in the model: a connection whose peer has not yet
    sent the HTTP/2 preface is not closed by the shutdown (hyper only notes close_pending), and
    the final GOAWAY waits for the peer's acknowledgement of the shutdown ping; the serve future
@@ -52,160 +55,205 @@ Import ListNotations.
 Local Open Scope nat_scope.
 
 (* ---- no connection is accepted after the signal -------------------------------------------- *)
+(* ... counted from the moment the signal FIRED *)
+Theorem c13_no_accept_after_signal_fired :
+  forall http1 admits resolves ls s,
+    run http1 admits resolves init_st ls s ->
+    forall l1 l2, ls = l1 ++ SignalFires :: l2 -> forall c, ~ In (Accept c) l2.
+Proof. exact no_accept_after_fire. Qed.
+
+(* once the signal future is ready the listener is not polled any more: none of the outcomes of
+   incoming.next() is enabled, in any state *)
+Theorem c13_listener_not_polled_once_fired :
+  forall http1 admits resolves s, sig_ready s = true ->
+    (forall c, step_fn http1 admits resolves s (Accept c) = None) /\
+    step_fn http1 admits resolves s IncomingErr = None /\
+    step_fn http1 admits resolves s IncomingEnd = None.
+Proof. exact listener_not_polled_when_fired. Qed.
+
+(* ... and from the end of the listener *)
 Theorem c13_no_accept_after_signal :
-  forall admits resolves ls s,
-    run admits resolves init_st ls s ->
+  forall http1 admits resolves ls s,
+    run http1 admits resolves init_st ls s ->
     forall l l1 l2, l = SignalObserved \/ l = IncomingEnd -> ls = l1 ++ l :: l2 ->
     forall c, ~ In (Accept c) l2.
 Proof. exact no_accept_after_signal. Qed.
 
 Theorem c13_no_accept_enabled_after_signal :
-  forall admits resolves s,
-    reachable admits resolves s -> sig_fused s = true ->
-    forall c, step_fn admits resolves s (Accept c) = None.
+  forall http1 admits resolves s,
+    reachable http1 admits resolves s -> sig_fused s = true ->
+    forall c, step_fn http1 admits resolves s (Accept c) = None.
 Proof. exact no_accept_enabled_after_signal. Qed.
 
 (* the Fuse'd signal is consumed once, the watch channel is written once, every connection
    reacts to it once *)
 Theorem c13_signal_once :
-  forall admits resolves ls s,
-    run admits resolves init_st ls s ->
+  forall http1 admits resolves ls s,
+    run http1 admits resolves init_st ls s ->
     count_occ label_eq_dec ls SignalObserved <= 1 /\
     count_occ label_eq_dec ls Send <= 1 /\
     version s <= 1 /\
     forall c, count_occ label_eq_dec ls (ConnSeesChange c) <= 1.
 Proof. exact signal_once. Qed.
 
+(* watch::Sender::send never fails in serve_internal (the accept loop still holds signal_rx):
+   the error branch of [step_fn] is dead, the version always becomes 1 *)
+Theorem c13_send_always_delivers :
+  forall http1 admits resolves s s',
+    reachable http1 admits resolves s -> step http1 admits resolves s Send s' ->
+    rx_count s <> 0 /\ version s = 0 /\ version s' = 1.
+Proof. exact send_always_delivers. Qed.
+
 (* ---- the serve future resolves only after all connections have closed, and does then ------- *)
 Theorem c13_serve_returns_only_when_all_closed :
-  forall admits resolves s s',
-    reachable admits resolves s -> step admits resolves s ServeReturns s' ->
+  forall http1 admits resolves s s',
+    reachable http1 admits resolves s -> step http1 admits resolves s ServeReturns s' ->
     all_closed s /\ acc s' = Done.
 Proof. exact serve_returns_only_when_all_closed. Qed.
 
 Theorem c13_serve_returns_exactly_when_all_closed :
-  forall admits resolves s,
-    reachable admits resolves s -> acc s = Draining AtWait ->
-    ((exists s', step admits resolves s ServeReturns s') <-> all_closed s).
+  forall http1 admits resolves s,
+    reachable http1 admits resolves s -> acc s = Draining AtWait ->
+    ((exists s', step http1 admits resolves s ServeReturns s') <-> all_closed s).
 Proof. exact serve_returns_iff_reachable. Qed.
 
 (* in the history of any run that reached Done, every accepted connection's future resolved and
    its watch receiver was dropped *)
 Theorem c13_connections_closed_before_return :
-  forall admits resolves ls s,
-    run admits resolves init_st ls s -> acc s = Done ->
+  forall http1 admits resolves ls s,
+    run http1 admits resolves init_st ls s -> acc s = Done ->
     forall c, In (Accept c) ls ->
               In (DropReceiver c) ls /\ (In (ConnCloses c) ls \/ In (PeerAbort c) ls).
 Proof. exact served_connections_closed_before_return. Qed.
 
 (* the only thing that can still happen is the user's signal firing, unheard *)
 Theorem c13_nothing_happens_after_return :
-  forall admits resolves s l s',
-    reachable admits resolves s -> acc s = Done -> step admits resolves s l s' ->
+  forall http1 admits resolves s l s',
+    reachable http1 admits resolves s -> acc s = Done -> step http1 admits resolves s l s' ->
     l = SignalFires /\ acc s' = Done.
 Proof. exact done_terminal_reachable. Qed.
 
 (* ---- no accepted call is dropped -------------------------------------------------------------- *)
 (* no step takes a call out of flight except its own completion or its own peer going away *)
 Theorem c13_accepted_call_survives_every_step :
-  forall admits resolves, hyper_contract admits resolves ->
+  forall http1 admits resolves, hyper_contract admits resolves ->
   forall s l s' c k,
-    step admits resolves s l s' -> In k (inflight s c) ->
+    step http1 admits resolves s l s' -> In k (inflight s c) ->
     l <> CallCompletes c k -> l <> PeerAbort c -> In k (inflight s' c).
 Proof. exact calls_preserved. Qed.
 
 Theorem c13_accepted_calls_complete :
-  forall admits resolves, hyper_contract admits resolves ->
+  forall http1 admits resolves, hyper_contract admits resolves ->
   forall s ls s' c k,
-    run admits resolves s ls s' -> In k (inflight s c) -> ~ In k (inflight s' c) ->
+    run http1 admits resolves s ls s' -> In k (inflight s c) -> ~ In k (inflight s' c) ->
     In (CallCompletes c k) ls \/ In (PeerAbort c) ls.
 Proof. exact accepted_calls_complete. Qed.
 
 Theorem c13_every_accepted_call_completed_before_return :
-  forall admits resolves, hyper_contract admits resolves ->
+  forall http1 admits resolves, hyper_contract admits resolves ->
   forall ls s,
-    run admits resolves init_st ls s -> acc s = Done ->
+    run http1 admits resolves init_st ls s -> acc s = Done ->
     forall c k, In (NewCall c k) ls -> In (CallCompletes c k) ls \/ In (PeerAbort c) ls.
 Proof. exact every_accepted_call_completed. Qed.
 
 Theorem c13_new_calls_only_before_final_goaway :
-  forall admits resolves, hyper_contract admits resolves ->
+  forall http1 admits resolves, hyper_contract admits resolves ->
   forall s c k s',
-    step admits resolves s (NewCall c k) s' ->
+    step http1 admits resolves s (NewCall c k) s' ->
     exists gs f hp infl,
       lookup c (conns s) = Some (Live Open gs f hp infl) /\ hp <> GFin /\ ~ In k infl.
 Proof. exact new_call_only_before_final_goaway. Qed.
 
 Theorem c13_no_new_call_after_final_goaway :
-  forall admits resolves, hyper_contract admits resolves ->
+  forall http1 admits resolves, hyper_contract admits resolves ->
   forall s ls s' c,
-    run admits resolves s ls s' -> past_final s c -> forall k, ~ In (NewCall c k) ls.
+    run http1 admits resolves s ls s' -> past_final s c -> forall k, ~ In (NewCall c k) ls.
 Proof. exact no_new_call_past_final. Qed.
 
 (* ---- the serve future can return: no deadlock, and a variant ------------------------------ *)
 (* in every reachable state after the accept loop has been left, tonic / hyper / a handler can
-   move - unless all that is left are peers that never sent their preface or have not
-   acknowledged the shutdown ping *)
+   move - unless all that is left are peers that have not acknowledged the shutdown ping or
+   (http2 only, the default) never sent their preface *)
 Theorem c13_no_deadlock :
-  forall admits resolves, hyper_contract admits resolves ->
+  forall http1 admits resolves, hyper_contract admits resolves ->
   forall s p,
-    reachable admits resolves s -> acc s = Draining p ->
-    (exists l s', step admits resolves s l s' /\ progress l = true) \/
-    (p = AtWait /\ rx_count s <> 0 /\ only_awaiting_peers s).
+    reachable http1 admits resolves s -> acc s = Draining p ->
+    (exists l s', step http1 admits resolves s l s' /\ progress l = true) \/
+    (p = AtWait /\ rx_count s <> 0 /\ only_awaiting_peers http1 s).
 Proof. exact no_deadlock_reachable. Qed.
 
 (* [mu] = acceptor phase + per connection (open, not told, in handshake, calls in flight):
    every step except the arrival of a new call decreases it *)
 Theorem c13_variant :
-  forall admits resolves s l s',
-    step admits resolves s l s' -> acc s <> Selecting -> is_new_call l = false -> mu s' < mu s.
+  forall http1 admits resolves s l s',
+    step http1 admits resolves s l s' -> acc s <> Selecting -> is_new_call l = false ->
+    mu s' < mu s.
 Proof. exact step_decreases. Qed.
 
 Theorem c13_shutdown_bounded :
-  forall admits resolves s ls s',
-    run admits resolves s ls s' -> acc s <> Selecting ->
+  forall http1 admits resolves s ls s',
+    run http1 admits resolves s ls s' -> acc s <> Selecting ->
     Forall (fun l => is_new_call l = false) ls -> length ls + mu s' <= mu s.
 Proof. exact bounded_without_new_calls. Qed.
 
 (* from every reachable state after the loop there is a continuation of at most [mu s] moves of
    tonic, hyper and the handlers (plus the preface of peers still in their handshake) to Done *)
 Theorem c13_serve_can_return :
-  forall admits resolves, hyper_contract admits resolves ->
+  forall http1 admits resolves, hyper_contract admits resolves ->
   forall s,
-    reachable admits resolves s -> acc s <> Selecting ->
-    exists ls s', run admits resolves s ls s' /\
+    reachable http1 admits resolves s -> acc s <> Selecting ->
+    exists ls s', run http1 admits resolves s ls s' /\
                   Forall (fun l => progress l = true \/ is_peer l = true) ls /\
                   acc s' = Done /\ length ls <= mu s.
 Proof. exact serve_can_return_reachable. Qed.
 
 (* ---- the window between the firing of the signal and its observation ---------------------- *)
 Theorem c13_signal_fires_once :
-  forall admits resolves ls s,
-    run admits resolves init_st ls s -> count_occ label_eq_dec ls SignalFires <= 1.
+  forall http1 admits resolves ls s,
+    run http1 admits resolves init_st ls s -> count_occ label_eq_dec ls SignalFires <= 1.
 Proof. exact signal_fires_once. Qed.
 
 Theorem c13_pending_signal_can_be_observed :
-  forall admits resolves s, sig_pending s ->
-  exists s', step admits resolves s SignalObserved s' /\ acc s' = Draining AtSend.
+  forall http1 admits resolves s, sig_pending s ->
+  exists s', step http1 admits resolves s SignalObserved s' /\ acc s' = Draining AtSend.
 Proof. exact pending_enables_observation. Qed.
 
 Theorem c13_signal_enabled_until_observed :
-  forall admits resolves s ls s',
-    run admits resolves s ls s' -> sig_pending s ->
-    ~ In SignalObserved ls -> ~ In IncomingEnd ls -> sig_pending s'.
+  forall http1 admits resolves s ls s',
+    run http1 admits resolves s ls s' -> sig_pending s ->
+    ~ In SignalObserved ls -> sig_pending s'.
 Proof. exact signal_enabled_until_observed. Qed.
+
+(* in the window the select loop (Accept / IncomingErr / IncomingEnd / SignalObserved) has exactly
+   one move: taking the signal branch, which leaves the loop *)
+Theorem c13_first_select_move_after_firing :
+  forall http1 admits resolves s l s',
+    sig_pending s -> step http1 admits resolves s l s' -> is_select_move l = true ->
+    l = SignalObserved /\ acc s' = Draining AtSend.
+Proof. exact pending_select_move. Qed.
+
+(* the select loop is left: along any run from the window, either the accept loop has not moved
+   yet (and the signal branch is still enabled) or its first move was to take the signal branch *)
+Theorem c13_select_loop_left :
+  forall http1 admits resolves s ls s',
+    run http1 admits resolves s ls s' -> sig_pending s ->
+    (Forall (fun l => is_select_move l = false) ls /\ sig_pending s') \/
+    (exists l1 l2, ls = l1 ++ SignalObserved :: l2 /\
+                   Forall (fun l => is_select_move l = false) l1).
+Proof. exact selecting_left. Qed.
 
 (* ---- the tie: what the harness's trace check means ----------------------------------------- *)
 Theorem c13_checked_trace_is_a_run :
-  forall age evs, trace_ok age evs = true ->
-  exists ls s, run admits_std resolves_std init_st ls s /\
+  forall age http1 evs, trace_ok age http1 evs = true ->
+  exists ls s, run http1 admits_std resolves_std init_st ls s /\
               observe ls = filter visible evs /\ acc s = Done.
 Proof. exact trace_ok_sound. Qed.
 
 Theorem c13_checked_trace_properties :
-  forall age evs, trace_ok age evs = true ->
+  forall age http1 evs, trace_ok age http1 evs = true ->
   let evs := filter visible evs in
-  (forall e e1 e2 c, e = ESignal \/ e = EIncomingEnd -> evs = e1 ++ e :: e2 -> ~ In (EAccept c) e2) /\
+  (forall e e1 e2 c, e = ESignalFired \/ e = ESignal \/ e = EIncomingEnd ->
+                     evs = e1 ++ e :: e2 -> ~ In (EAccept c) e2) /\
   (forall e1 e2, evs = e1 ++ ESignal :: e2 -> In ESignalFired e1) /\
   (forall e1 e2, evs = e1 ++ EServeReturned :: e2 ->
      Forall (fun e => e = ESignalFired) e2 /\
@@ -214,14 +262,41 @@ Theorem c13_checked_trace_properties :
   (forall e1 e2 c k, evs = e1 ++ EGoawayFinal c :: e2 -> ~ In (ECallStart c k) e2).
 Proof. exact trace_ok_properties. Qed.
 
+(* the meaning of the harness mark EIdleAfterFire ("the first quiescent point after the signal
+   fired"): the checker accepts it only if by then the accept loop has taken the signal branch (or
+   seen the listener end) - together with c13_checked_trace_properties: and has accepted nothing
+   since the firing *)
+Theorem c13_idle_mark_means_loop_left :
+  forall age http1 evs, trace_ok age http1 evs = true ->
+  forall e1 e2, evs = e1 ++ EIdleAfterFire :: e2 -> In ESignal e1 \/ In EIncomingEnd e1.
+Proof. exact idle_after_fire_means_left. Qed.
+
 (* the meaning of the harness event EQuiet ("nothing moved although every handler was let
    through"): the checker accepts it only in states where indeed no move of tonic / hyper / a
-   handler is enabled *)
+   handler is enabled - and with accept_http1 in no state that still has an open connection *)
 Theorem c13_quiet_only_when_stalled :
-  forall admits resolves s, stalled_b s = true ->
+  forall http1 admits resolves s, stalled_b http1 s = true ->
   acc s = Draining AtWait /\ rx_count s <> 0 /\ only_silent s /\
-  forall l s', step admits resolves s l s' -> progress l = false.
+  (http1 = true -> all_closed s) /\
+  forall l s', step http1 admits resolves s l s' -> progress l = false.
 Proof. exact stalled_refuses_progress. Qed.
+
+(* the tcp kinds (serve_with_shutdown over 127.0.0.1): accepts, GOAWAY frames and closes are not
+   observable there and are filled in by [complete_tcp] before the same checker runs.  The
+   completion keeps every observed event, in order, and adds unobservable ones only ... *)
+Theorem c13_tcp_completion_keeps_the_observed :
+  forall evs known, Forall (fun e => tcp_hidden e = false) evs ->
+  filter (fun e => negb (tcp_hidden e)) (complete_tcp known evs) = evs.
+Proof. exact complete_tcp_keeps. Qed.
+
+(* ... so an accepted tcp trace is the observable part of a complete run of the system *)
+Theorem c13_tcp_checked_trace_is_a_run :
+  forall evs, trace_ok false false (complete_tcp [] evs) = true ->
+  Forall (fun e => tcp_hidden e = false) evs ->
+  exists ls s, run false admits_std resolves_std init_st ls s /\
+               filter (fun e => negb (tcp_hidden e)) (observe ls) = filter visible evs /\
+               acc s = Done.
+Proof. exact tcp_trace_sound. Qed.
 
 (* ---- non-vacuity ------------------------------------------------------------------------------ *)
 (* the contract is satisfiable: the behaviour observed from hyper meets it *)
@@ -233,7 +308,7 @@ Proof. exact hyper_std_contract. Qed.
    complete), connection 1 not yet told and still taking a call *)
 Example c13_reachable_mid_shutdown :
   exists s,
-    run admits_std resolves_std init_st
+    run false admits_std resolves_std init_st
         [Accept 0%N; HandshakeDone 0%N; NewCall 0%N 7%N; Accept 1%N; HandshakeDone 1%N;
          NewCall 1%N 8%N; NewCall 0%N 9%N; SignalFires; SignalObserved; Send; ConnSeesChange 0%N;
          Goaway 0%N; CallCompletes 0%N 7%N; DropAcceptorRx; NewCall 1%N 5%N] s /\
@@ -244,11 +319,11 @@ Proof. eexists. split; [apply exec_run; reflexivity|repeat split]. Qed.
 (* ... and a complete run: a call in the window between the two GOAWAY frames is still admitted,
    one after the final GOAWAY is impossible, everything drains, the serve future returns *)
 Example c13_complete_run :
-  exec admits_std resolves_std init_st
+  exec false admits_std resolves_std init_st
        [Accept 0%N; HandshakeDone 0%N; NewCall 0%N 7%N; SignalFires; SignalObserved; Send;
         ConnSeesChange 0%N; Goaway 0%N; NewCall 0%N 6%N; GoawayFinal 0%N; NewCall 0%N 8%N] = None /\
   exists s,
-    run admits_std resolves_std init_st
+    run false admits_std resolves_std init_st
         [Accept 0%N; HandshakeDone 0%N; NewCall 0%N 7%N; SignalFires; SignalObserved; Send;
          ConnSeesChange 0%N; Goaway 0%N; NewCall 0%N 6%N; GoawayFinal 0%N; DropAcceptorRx;
          CallCompletes 0%N 7%N; CallCompletes 0%N 6%N; ConnCloses 0%N; DropReceiver 0%N;
@@ -260,23 +335,28 @@ Proof.
   destruct c; intros H; [now injection H as <-|discriminate H].
 Qed.
 
-(* the signal has fired but select! keeps picking the listener: connections are accepted in
-   between, the signal branch stays enabled, and once taken nothing more is accepted *)
-Example c13_accepts_between_firing_and_observation :
+(* the window between firing and observation exists (the accept task has not been polled yet, the
+   connection tasks move on), nothing is accepted in it, and the one move of the select loop is to
+   leave - the hypotheses of c13_first_select_move_after_firing / c13_select_loop_left are met by
+   a reachable state *)
+Example c13_window_between_firing_and_observation :
   exists s,
-    run admits_std resolves_std init_st [SignalFires; Accept 0%N; Accept 1%N; Accept 2%N] s /\
+    run false admits_std resolves_std init_st
+        [Accept 0%N; SignalFires; HandshakeDone 0%N; NewCall 0%N 4%N] s /\
     sig_pending s /\
-    exec admits_std resolves_std s [SignalObserved; Accept 3%N] = None /\
-    exists s', step admits_std resolves_std s SignalObserved s'.
+    exec false admits_std resolves_std s [Accept 1%N] = None /\
+    exec false admits_std resolves_std s [IncomingErr] = None /\
+    exec false admits_std resolves_std s [IncomingEnd] = None /\
+    exists s', step false admits_std resolves_std s SignalObserved s'.
 Proof.
   eexists. split; [apply exec_run; reflexivity|].
-  split; [repeat split|]. split; [reflexivity|]. eexists. reflexivity.
+  split; [repeat split|]. repeat split; try reflexivity. eexists. reflexivity.
 Qed.
 
 (* max_connection_age tells a connection without any signal *)
 Example c13_age_tells_without_signal :
   exists s,
-    run admits_std resolves_std init_st
+    run false admits_std resolves_std init_st
         [Accept 0%N; HandshakeDone 0%N; NewCall 0%N 1%N; AgeExpires 0%N; Goaway 0%N;
          GoawayFinal 0%N; CallCompletes 0%N 1%N; ConnCloses 0%N; DropReceiver 0%N] s /\
     acc s = Selecting /\ rx_count s = 1 /\ all_closed s.
@@ -285,13 +365,15 @@ Proof.
   intros c v. simpl. destruct c; intros H; [now injection H as <-|discriminate H].
 Qed.
 
-(* a peer that never speaks stalls the shutdown (the second disjunct of c13_no_deadlock) *)
+(* a peer that never speaks stalls the shutdown of an http2-only server (the second disjunct of
+   c13_no_deadlock) ... *)
 Example c13_silent_peer_stalls :
   exists s,
-    run admits_std resolves_std init_st
+    run false admits_std resolves_std init_st
         [Accept 0%N; SignalFires; SignalObserved; Send; DropAcceptorRx; ConnSeesChange 0%N] s /\
     acc s = Draining AtWait /\ rx_count s = 1 /\ only_silent s /\
-    forall l s', step admits_std resolves_std s l s' -> l = HandshakeDone 0%N \/ l = PeerAbort 0%N.
+    forall l s', step false admits_std resolves_std s l s' ->
+                 l = HandshakeDone 0%N \/ l = PeerAbort 0%N.
 Proof.
   eexists. split; [apply exec_run; reflexivity|]. repeat split.
   - intros c v. simpl. destruct c; intros H; [|discriminate H].
@@ -300,8 +382,43 @@ Proof.
     destruct l; simpl in H; try discriminate; destruct c; try discriminate; auto.
 Qed.
 
+(* ... with accept_http1 the same connection is closed by the shutdown (its version detection is
+   cancelled) and the serve future returns; without, that continuation does not exist *)
+Example c13_silent_peer_closed_with_http1 :
+  (exists s,
+     run true admits_std resolves_std init_st
+         [Accept 0%N; SignalFires; SignalObserved; Send; DropAcceptorRx; ConnSeesChange 0%N;
+          ConnCloses 0%N; DropReceiver 0%N; ServeReturns] s /\ acc s = Done) /\
+  exec false admits_std resolves_std init_st
+       [Accept 0%N; SignalFires; SignalObserved; Send; DropAcceptorRx; ConnSeesChange 0%N;
+        ConnCloses 0%N] = None /\
+  exec true admits_std resolves_std init_st
+       [Accept 0%N; SignalFires; SignalObserved; Send; DropAcceptorRx; ConnSeesChange 0%N;
+        HandshakeDone 0%N] = None.
+Proof.
+  split; [eexists; split; [apply exec_run; reflexivity|reflexivity]|]. split; reflexivity.
+Qed.
+
+(* the checker on a tcp trace: accept, GOAWAYs and close are filled in; a call still running when
+   the serve future returns, or one starting on a connection first seen after the signal, is
+   refused *)
+Example c13_tcp_checker :
+  trace_ok false false (complete_tcp []
+    [ECallStart 0 7; ECallDone 0 7; ECallStart 0 1; ESignalFired; ESignal; ECallDone 0 1;
+     EServeReturned]%N) = true /\
+  trace_ok false false (complete_tcp []
+    [ECallStart 0 7; ECallDone 0 7; ECallStart 0 1; ESignalFired; ESignal;
+     EServeReturned; ECallDone 0 1]%N) = false /\
+  trace_ok false false (complete_tcp []
+    [ECallStart 0 7; ECallDone 0 7; ESignalFired; ESignal; ECallStart 1 2; ECallDone 1 2;
+     EServeReturned]%N) = false.
+Proof. repeat split; vm_compute; reflexivity. Qed.
+
+Print Assumptions c13_no_accept_after_signal_fired.
+Print Assumptions c13_listener_not_polled_once_fired.
 Print Assumptions c13_no_accept_after_signal.
 Print Assumptions c13_signal_once.
+Print Assumptions c13_send_always_delivers.
 Print Assumptions c13_serve_returns_only_when_all_closed.
 Print Assumptions c13_connections_closed_before_return.
 Print Assumptions c13_accepted_calls_complete.
@@ -310,4 +427,8 @@ Print Assumptions c13_no_deadlock.
 Print Assumptions c13_serve_can_return.
 Print Assumptions c13_checked_trace_properties.
 Print Assumptions c13_signal_enabled_until_observed.
+Print Assumptions c13_first_select_move_after_firing.
+Print Assumptions c13_select_loop_left.
 Print Assumptions c13_no_new_call_after_final_goaway.
+Print Assumptions c13_tcp_checked_trace_is_a_run.
+Print Assumptions c13_idle_mark_means_loop_left.
